@@ -30,7 +30,7 @@ CanonCtx(c) ==
   [C  |-> [n \in DOMAIN c.C |->
              [c.C[n] EXCEPT !.fields = [j \in DOMAIN c.C[n].fields |->
                  [c.C[n].fields[j] EXCEPT !.dv = CanonV(c.C[n].fields[j].dv)]]]],
-   En |-> c.En, O |-> [c.O EXCEPT !.impl = FALSE, !.dev = {}], S |-> c.S]
+   En |-> c.En, O |-> [c.O EXCEPT !.impl = FALSE, !.dev = {}, !.setuniq = FALSE], S |-> c.S]
 
 \* non JSON-shaped Python objects somewhere in the datum (C03): the specification fixes only
 \* the CLASS of the outcome -- a value or a ValidationError -- never the value
